@@ -171,7 +171,14 @@ impl PathRequireMode {
                     );
                 })
                 .collect();
-            potential_aliases.sort_by_cached_key(|(_, alias_path)| alias_path.components().count());
+            // when several names lead to the same location, always pick the same one (the
+            // names come from a map that has no stable order)
+            potential_aliases.sort_by_cached_key(|(alias_name, alias_path)| {
+                (
+                    alias_path.components().count(),
+                    std::cmp::Reverse((*alias_name).clone()),
+                )
+            });
 
             if let Some((alias_name, alias_path)) = potential_aliases.into_iter().next_back() {
                 let mut new_path = PathBuf::from(alias_name);
